@@ -116,7 +116,7 @@ def num_cases(ctx: Check) -> list[Case]:
                      "rts x=9 w=3", "rts x=-9 w=3", "rtu x=-2 w=3", "rtu x=77 w=3", "rts x=1 w=0", "rtu x=0 w=0",
                      "i2s x=123456789012345678901234567890 w=70", "al n=0 p=0", "al n=-1 p=0", "al n=5 p=70"], "directed"))
     # random wide values
-    for _ in range(ctx.pick(40, 400)):
+    for _ in range(ctx.pick(60, 400)):
         lines = []
         for _ in range(20):
             w = rng.choice([1, 2, 3, 8, 16, 31, 32, 33, 63, 64, 65, 128, rng.randint(1, 200)])
@@ -354,7 +354,7 @@ def mh_cases(ctx: Check) -> list[Case]:
         (("t", [I(1), ("t", [I(2)])]), ("t", [I(1), ("t", [I(2)])])),
     ]
     cases.append(mk(directed, "directed"))
-    for _ in range(ctx.pick(60, 1500)):
+    for _ in range(ctx.pick(150, 1500)):
         pairs = []
         for _ in range(10):
             a = _gen_val(rng, rng.randint(1, 3))
@@ -473,8 +473,8 @@ def _tr_impl(line: str) -> str:
         tconst = transpose(data.Const(lay, v))
         tview = transpose(data.View(lay, C(v, lay.size)))
         back = transpose_layout(rl)
-    except ValueError:
-        return "raise ValueError"
+    except Exception as e:  # noqa: BLE001 - an exception of the real code is an observation
+        return f"raise {type(e).__name__}"
     got: list[int] = []
 
     async def tb(ctx):
@@ -484,9 +484,12 @@ def _tr_impl(line: str) -> str:
                 x = Value.cast(tview[i][o])
                 got.append(ctx.get(x) & ((1 << len(x)) - 1))
 
-    sim = Simulator(Module())
-    sim.add_testbench(tb)
-    sim.run()
+    try:
+        sim = Simulator(Module())
+        sim.add_testbench(tb)
+        sim.run()
+    except Exception as e:  # noqa: BLE001
+        return f"raise {type(e).__name__} (while evaluating the transposed view)".replace(" ", "_")
     vconst = tconst.as_value().value
     vtxt = str(got[0]) if vconst == got[0] and tconst.shape() == tview.shape() == rl else f"view:{got[0]}/const:{vconst}"
     return (f"lay={_outer_enc(rl)} ok={_keys_enc(okeys)} ik={_keys_enc(ikeys)} v={vtxt} "
@@ -504,9 +507,11 @@ def tr_monitor(case: Case, out: list[str]):
     from amaranth.lib import data
 
     for n, (line, o) in enumerate(zip(case.ops, out[1:])):
-        if o.startswith("raise"):
-            continue
         kv = dict(x.split("=") for x in line.split()[1:])
+        if o.startswith("raise"):
+            if _meets_requirements(kv["lay"]):
+                return f"op {n} ({line}): the layout satisfies the documented requirements of transpose_layout but transpose answered '{o}'"
+            continue
         f = dict(x.split("=") for x in o.split())
         lay = _outer_build(kv["lay"])
         c = data.Const(lay, int(kv["v"]))
@@ -530,6 +535,30 @@ def tr_monitor(case: Case, out: list[str]):
         if f["back"] != kv["lay"]:
             return f"op {n} ({line}): transposing the layout twice gives {f['back']}"
     return None
+
+
+def _meets_requirements(lay: str) -> bool:
+    """the documented requirements of transpose_layout, read off the textual layout: an array/struct with at
+    least one member, all members arrays/structs with at least one member and identical key lists"""
+    p = lay.split("|")
+    if p[0] == "S":
+        inners = [f.split(":", 1)[1] for f in p[1:]]
+    elif p[0] == "A":
+        inners = [p[2]] * int(p[1])
+    else:
+        return False
+    if not inners:
+        return False
+    keys = []
+    for s in inners:
+        q = s.split(";")
+        if q[0] == "S":
+            keys.append([f.split(":")[0] for f in q[1:]])
+        elif q[0] == "A":
+            keys.append(list(range(int(q[1]))))
+        else:
+            return False
+    return bool(keys[0]) and all(k == keys[0] for k in keys)
 
 
 def _rand_leaf(rng) -> str:
@@ -607,7 +636,7 @@ def tr_cases(ctx: Check) -> list[Case]:
         ("S|a:S;x:1.0;y:1.0|b:S;y:1.0;x:1.0", 5), ("S|a:S;x:1.0|b:A;1;1.0", 2), ("S|a:A;2;1.0|b:A;3;1.0", 9),
     ]
     cases.append(mk(directed, "directed"))
-    for _ in range(ctx.pick(40, 1000)):
+    for _ in range(ctx.pick(100, 1000)):
         items = []
         for _ in range(10):
             lay = _rand_layout(rng, rng.random() < 0.8)
